@@ -6,6 +6,10 @@ claimed = subprocess.run([os.path.join(V, "check"), "--list"], stdout=subprocess
 
 # id -> (category, level text, level note, technique, design ref)
 T = {
+ "C05": ("exploration",
+         "Property testing (rapid-generated plans) of concurrent Post under the race detector: N poster goroutines with generated yield points and nesting (Post from posted handlers, from goroutines spawned by handlers) against a loop goroutine locked to its OS thread running a generated poll/run/arm/cancel script; exactly-once, loop-thread execution (gettid), per-poster order, wake-up of a blocked RunOne, deadlock watchdog, Pending()/Posted() at quiescence, and no data-race report in a -race build. The OS scheduler picks the interleavings: the data-race half is timing-independent, the rest statistical.",
+         "Trusts the Go race detector (built with -gcflags=all=-d=checkptr=0 because checkptr aborts on the poller's unaligned slot pointer), gettid for thread identity and the 10 s watchdog (normal case < 100 ms).",
+         "property-based concurrency testing under the race detector (rapid + -race)", "DESIGN.md §4 C05"),
  "C01": ("exploration",
          "Model-based property testing (rapid state machine) on a generated world of real descriptors (TCP conns, adapters, FIFO ends, listener, packet conn) with raw peers owned by the harness: the harness decides the composition and order of every poll batch (readiness settled with poll(2)), both completion paths are reached for real (32 nested inline completions, filled buffers), handlers cancel/close/re-arm other objects; per-operation completion counts, Cancel/Close contracts and a count-bounded final drain are checked. Bounded search over schedules, not a proof.",
          "Trusts poll(2) on RawFd() as the readiness oracle and the harness's raw peers; one read and one write in flight per object; AsyncAdapter writes limited to what fits the socket buffer.",
